@@ -28,7 +28,8 @@ EXPLANATION = (
     "cut 1..len-1 within the length bounds. (c) monotone: results are only "
     "ever added, options are routed from digest() to the matching "
     "parameters, every return of digest() is the _cleave result (no "
-    "shortcut), and nothing is cached across calls. NOT decided: regex "
+    "shortcut), and nothing is cached across calls. Also: the semi-enzymatic scan is judged by the index ranges it adds (loop followed value by value for five peptide lengths and four (min, max) pairs); the enzyme pattern is used as given. "
+    "NOT decided: regex "
     "semantics of look-ahead patterns beyond 'the whole sequence is "
     "searched'.")
 TECHNIQUE = ("def-use provenance + guard truth tables over representative "
